@@ -9,6 +9,8 @@ import Astm.Model.Archive
 import Astm.Model.Fields
 import Astm.Generated.Schemas
 import Astm.Model.Heap
+import Astm.Model.Select
+import Astm.Generated.Regex
 
 open Astm Astm.Wire
 
@@ -175,6 +177,25 @@ def handle (toks : List String) : String :=
       "ok " ++ " ; ".intercalate (outs.map showTOut) ++ " | " ++ ",".intercalate live
     | _, _ => "bad-arg"
   | ["default-timeout"] => s!"ok {TIMEOUT}"
+  | ["select", h] => match ofHex h with
+    | some b => "ok " ++ ((selectModule Astm.Gen.headerRx b).getD "generic")
+    | none => "bad-arg"
+  | ["rxh", modName, h] => match ofHex h, Astm.Gen.headerRx.find? (·.1 == modName) with
+    | some b, some m => if Astm.Rx.isMatch m.2.1 b then "ok 1" else "ok 0"
+    | _, _ => "bad-arg"
+  | ["rxv", which, h] => match ofHex h with
+    | some b =>
+      let (rx, names) := if which == "mini_vidas" then (Astm.Gen.vendor_mini_vidas, Astm.Gen.vendor_mini_vidas_groups)
+                         else (Astm.Gen.vendor_se1520, Astm.Gen.vendor_se1520_groups)
+      match Astm.Rx.pyMatch rx b with
+      | none => "ok nomatch"
+      | some st =>
+        let n := if which == "mini_vidas" then names.length else 10
+        let gs := (List.range n).map fun i => match Astm.Rx.groupOf b st (i + 1) with
+          | none => "~"
+          | some g => toHex g
+        "ok " ++ " ".intercalate gs
+    | none => "bad-arg"
   | "heap" :: modName :: rest =>
     -- ops separated by ";" tokens; prints the rendering of all records after every op
     let groups := (rest.splitOn ";").filter (· ≠ [])
